@@ -24,11 +24,15 @@ class Clock(i_lib.Clock):
 
     def start(self):
         self.reset()
+        # Re-arm here and not in run(): the new thread may not get to run for
+        # a while, and in the meantime a stale False left by the previous
+        # stop() would end the first delay early, while a stop() issued now
+        # must not be overwritten when the thread finally starts.
+        self._keep_going = True
         threading.Thread(target=self.run, args=(), daemon=True).start()
 
     @injection.inject(i_lib.Settings)
     def run(self, settings):
-        self._keep_going = True
         sleep_time = float(settings.get_value('sleep_time'))
         while self._keep_going:
             if sleep_time > 0.0:
